@@ -100,7 +100,7 @@ theorem NetInv.consSat {n : Net} {orig L : Cnf} {fr : List Frame} (h : NetInv n 
   have hfr := h.root_frames hroot
   subst hfr
   obtain ⟨⟨B, K, hs'⟩, hroot'⟩ := hg
-  have hb : ThBase orig n.sat n.lra n.idl n.rdl := h.th
+  have hb : ThBase (orig ++ L) n.sat n.lra n.idl n.rdl := h.th
   have hle : Dl.SatLe n.sat s' := satLe_of_trail h.sat.wf.a hs'.wf.a hf.trail
   have hsub : ∀ d ∈ orig, d ∈ orig ++ s'.toEnc.cnf := fun d hd' => List.mem_append_left _ hd'
   have hent := ent_of_consN hs'.wf.a hroot' h.sat.ent hf hd
@@ -111,7 +111,10 @@ theorem NetInv.consSat {n : Net} {orig L : Cnf} {fr : List Frame} (h : NetInv n 
       · exact List.mem_append_left _ (List.mem_append_left _ hd')
       · exact List.mem_append_right _ hd'
     · exact List.mem_append_left _ (List.mem_append_right _ hd')
-  · exact (ThBase.mono_orig (orig := orig) hb hsub).mono hle
+  · exact (ThBase.mono_orig (orig := orig ++ L) hb (fun d hd' => by
+      rcases List.mem_append.1 hd' with hd' | hd'
+      · exact List.mem_append_left _ (List.mem_append_left _ hd')
+      · exact List.mem_append_right _ hd')).mono hle
   · exact ThReg.mono h.reg hf.nvars
 
 end Net
